@@ -348,6 +348,9 @@ func TestC15TipFollowsBackend(t *testing.T) {
 				f.Style = simchain.Style(rapid.IntRange(0, 1).Draw(t, "style"))
 				f.Open()
 				f.Client.TxBeforeBlock = rapid.Bool().Draw(t, "txBeforeBlock")
+				if f.Client.ProgressEvery = rapid.IntRange(0, 3).Draw(t, "progressEvery"); f.Client.ProgressEvery > 0 {
+					c.Class("rescan-reports-progress")
+				}
 				if rapid.IntRange(0, 2).Draw(t, "blockDuringRescan") == 0 {
 					s.blocksDuringRescan(rapid.IntRange(1, 2).Draw(t, "nDuringRescan"))
 				}
